@@ -287,8 +287,10 @@ def groups_a(tier):
             for (o, hk), sd, temp, al in itertools.product(comm_pairs(), t["A_sd"], t["A_T"], t["A_alpha"])]
 
 
-def case_a(o, hk, sd, temp, alpha, n, eps):
-    h = commuting_h(o, hk)
+def case_a(o, hk, sd, temp, alpha, n, eps, offset=0.0):
+    # offset: a constant energy c*1 added to H -- the thermal state does not depend on it, the Boltzmann weights
+    # exp(-E/T) the network carries do (their absolute size crosses the truncation threshold epsrel)
+    h = commuting_h(o, hk) + offset * np.eye(len(o))
     o2 = np.diag(np.asarray(o, dtype=float) ** 2)
     lam = reorganisation(sd, alpha)
     exact = canonical(h, temp, lam * o2)
@@ -320,6 +322,31 @@ def case_a(o, hk, sd, temp, alpha, n, eps):
     elif psig:
         r["what"] = f"O=diag{tuple(o)} H={hk} {sd} alpha={alpha} T={temp} n_steps={n} epsrel={eps}: {psig} {nums}"
     return r
+
+
+SHIFT_RATIOS = [-20.0, 8.0, 14.0, 18.0, 22.0, 26.0, 30.0]      # energy offset / T
+
+
+def groups_s(tier):
+    out = []
+    for (o, hk), temp in itertools.product([((1, -1), "diag"), ((1, 0, -1), "diag"), ((1, 1, 0), "block-complex")], [0.3, 1.0]):
+        for n, eps, ratio in itertools.product([3, 5], [1e-4, 1e-6, 1e-9], SHIFT_RATIOS):
+            out.append({"fam": "S", "o": list(o), "hk": hk, "sd": "ohmic-exp", "T": temp, "alpha": 0.4, "n": n, "eps": eps,
+                        "ratio": ratio})
+    return out
+
+
+def work_s(g):
+    r = case_a(tuple(g["o"]), g["hk"], g["sd"], g["T"], g["alpha"], g["n"], g["eps"], offset=g["ratio"] * g["T"])
+    r.pop("state", None)
+    if r["sig"]:
+        r["what"] = f"H + {g['ratio']}*T*1: " + r["what"]
+    return r
+
+
+def cls_s(g, sig):
+    where = "negative" if g["ratio"] < 0 else ("below-ln(1/epsrel)" if g["ratio"] < -np.log(g["eps"]) else "above-ln(1/epsrel)")
+    return f"commuting|H={g['hk']}+energy-offset({where})|{sig}"
 
 
 def guard_regime(sd, alpha, temp, o):
@@ -611,6 +638,14 @@ def run(tier, seed):
     ra = pmap(work_a, ga, seed=seed)
     rf = pmap(work_f, gf, seed=seed)
     re_ = pmap(work_e, ge, seed=seed)
+    gs = groups_s(tier)
+    rs = pmap(work_s, gs, seed=seed)
+    smax = 0.0
+    for g, r in zip(gs, rs):
+        if r["sig"]:
+            rep.add(Violation(cls_s(g, r["sig"]), r["what"], g))
+        elif r["ratio"] is not None:
+            smax = max(smax, r["ratio"])
 
     ev = {"A": 0, "B": 0, "C": 0, "D": 0, "E": 0}
     nontriv = {"A": set(), "B": set(), "C": set(), "D": set(), "E": set()}
@@ -692,7 +727,9 @@ def run(tier, seed):
     t = tiers(tier)
     amax = st.get("A_max_dev") or 0.0
     rep.coverage = {
-        "evaluations": sum(ev.values()),
+        "evaluations": sum(ev.values()) + len(gs),
+        "energy_offset_family": {"cases": len(gs), "offset_over_T": SHIFT_RATIOS, "epsrel": [1e-4, 1e-6, 1e-9],
+                                 "max_dev_over_tol": smax},
         "evaluations_by_family": ev,
         "distinct_nontrivial": sum(len(v) for v in nontriv.values()),
         "distinct_nontrivial_by_family": {k: len(v) for k, v in nontriv.items()},
@@ -747,6 +784,10 @@ def replay(rp):
         r.pop("state", None)
         return {"obs": {"dev": None if r["dev"] is None else round(r["dev"], 12), "sig": r["sig"]},
                 "violation": cls_a(rp, r["sig"]) if r["sig"] else None}
+    if fam == "S":
+        r = work_s(rp)
+        return {"obs": {"dev": None if r["dev"] is None else round(r["dev"], 12), "sig": r["sig"]},
+                "violation": cls_s(rp, r["sig"]) if r["sig"] else None}
     if fam == "B":
         r = case_zero(rp["hk"], tuple(rp["o"]), rp["sd"], rp["T"], rp["n"], rp["eps"], rp["variant"])
         return {"obs": {"dev": None if r["dev"] is None else round(r["dev"], 13), "sig": r["sig"]},
